@@ -116,7 +116,7 @@ static void dump_par(const std::string& cid, ParMultilevel* ml, const Opts& o) {
 // max_levels = -1 means "no limit": a hierarchy that stops coarsening would make setup run (and allocate) for ever.
 // Such a case is first run with the limit PROBE_LEVELS; only when that run stops earlier by itself (then the
 // unlimited run is the same computation) is the unlimited setup executed; otherwise NOSTOP is reported.
-static const int PROBE_LEVELS = 40;
+static const int PROBE_LEVELS = 16;
 static void run_case_inner(const std::string& cid, Toks& t, bool allow_probe) {
     size_t pos0 = t.pos;
     std::string op = t.next();
